@@ -26,7 +26,47 @@ pub fn plan() -> Plan {
         soft_s: (28, 420),
         exhaustive: None,
         min_evaluations: 30,
-        extra: None,
+        extra: Some(san_extra),
+    }
+}
+
+/// thorough tier: the same workload in one process built with ThreadSanitizer (-Zbuild-std) and AddressSanitizer
+fn san_extra(tier: &str, seed: u64, sh: &mut Shard) {
+    if tier != "thorough" {
+        return;
+    }
+    let script = crate::evidence::verif_root().join("tools").join("san.sh");
+    for kind in ["thread", "address"] {
+        let out = std::process::Command::new(&script).arg(kind).arg((seed % 100_000).to_string()).arg("8").output();
+        match out {
+            Ok(o) => {
+                let text = String::from_utf8_lossy(&o.stdout).to_string();
+                let san = text.lines().find(|l| l.starts_with("SAN reports=")).unwrap_or("").to_string();
+                let done = text.lines().find(|l| l.starts_with("C08SAN done")).unwrap_or("").to_string();
+                if san.is_empty() || done.is_empty() {
+                    sh.notes.push(format!("{} sanitizer run inconclusive: {}", kind, text.lines().last().unwrap_or("no output")));
+                    continue;
+                }
+                let reports: u64 = san.split_whitespace().next().and_then(|x| x.strip_prefix("SAN")).map(|_| 0).unwrap_or(0);
+                let _ = reports;
+                let n: u64 = san.split("reports=").nth(1).and_then(|x| x.split_whitespace().next()).and_then(|x| x.parse().ok()).unwrap_or(0);
+                let frames = san.split("pearl_frames=").nth(1).and_then(|x| x.split(" exit=").next()).unwrap_or("").to_string();
+                let ops: u64 = done.split("client_operations=").nth(1).and_then(|x| x.split_whitespace().next()).and_then(|x| x.parse().ok()).unwrap_or(0);
+                sh.add(&format!("{}_sanitizer_client_operations", kind), ops);
+                sh.add(&format!("{}_sanitizer_reports", kind), n);
+                if done.contains("violations=0") {
+                    sh.add(&format!("{}_sanitizer_runs_clean_oracle", kind), 1);
+                } else {
+                    sh.violations.push(crate::evidence::Violation { sig: format!("C08/{}-sanitizer-build/oracle-violation", kind), detail: text.lines().filter(|l| l.starts_with("C08SAN violation")).next().unwrap_or("").to_string(), replay: "tools/san.sh".into() });
+                }
+                if n > 0 && !frames.is_empty() {
+                    sh.violations.push(crate::evidence::Violation { sig: format!("C08/{}-sanitizer-report", kind), detail: format!("{} report(s) with pearl frames: {}", n, frames), replay: format!("harness/target-san-{}.last-reports.log", kind) });
+                } else if n > 0 {
+                    sh.notes.push(format!("{} sanitizer: {} report(s) without pearl frames (dependencies / runtime), see harness/target-san-{}.last-reports.log", kind, n, kind));
+                }
+            }
+            Err(e) => sh.notes.push(format!("{} sanitizer run could not be started: {}", kind, e)),
+        }
     }
 }
 
